@@ -392,29 +392,16 @@ def collect_list(fl, value, node, depth=4):
         return [(fl.expand(e, node), None) for e in v.elts]
     if isinstance(v, (ast.ListComp, ast.GeneratorExp)) and len(v.generators) == 1:
         g = v.generators[0]
-        it = fl.expand(g.iter, node)
         mapping = {}
-        cn = call_name(it)
-        if isinstance(g.target, ast.Name):
-            base = it
-            if cn == "range" and len(it.args) == 1 and call_name(it.args[0]) == "len":
-                mapping[g.target.id] = ast.Call(func=ast.Name(id="__idx__", ctx=ast.Load()), args=[it.args[0].args[0]], keywords=[])
-                base = it.args[0].args[0]
-            else:
-                mapping[g.target.id] = ast.Call(func=ast.Name(id="__elem__", ctx=ast.Load()), args=[it], keywords=[])
-            it = base
-        elif isinstance(g.target, ast.Tuple) and cn == "enumerate" and len(g.target.elts) == 2 and all(isinstance(x, ast.Name) for x in g.target.elts):
-            base = it.args[0]
-            mapping[g.target.elts[0].id] = ast.Call(func=ast.Name(id="__idx__", ctx=ast.Load()), args=[base], keywords=[])
-            mapping[g.target.elts[1].id] = ast.Call(func=ast.Name(id="__elem__", ctx=ast.Load()), args=[base], keywords=[])
-            it = base
-        elif isinstance(g.target, ast.Tuple) and cn == "items" and len(g.target.elts) == 2 and all(isinstance(x, ast.Name) for x in g.target.elts):
-            base = it.func.value
-            mapping[g.target.elts[0].id] = ast.Call(func=ast.Name(id="__key__", ctx=ast.Load()), args=[base], keywords=[])
-            mapping[g.target.elts[1].id] = ast.Call(func=ast.Name(id="__val__", ctx=ast.Load()), args=[base], keywords=[])
-            it = base
-        else:
-            return None
+
+        def bind(t, path):
+            if isinstance(t, ast.Name):
+                mapping[t.id] = fl._iter_value(g.iter, path, node, 8, ())
+            elif isinstance(t, (ast.Tuple, ast.List)):
+                for i, x in enumerate(t.elts):
+                    bind(x, path + (i,))
+        bind(g.target, ())
+        it = iter_base(fl.expand(g.iter, node))
         elt = _subst(copy.deepcopy(fl.expand(v, node).elt), mapping)
         return [(elt, it)] if not g.ifs else [(elt, ast.Call(func=ast.Name(id="__filtered__", ctx=ast.Load()), args=[it], keywords=[]))]
     if isinstance(v, ast.Name) and depth > 0:
@@ -437,15 +424,7 @@ def collect_list(fl, value, node, depth=4):
                             loops = [t for t, lab in fl.cfg.edges_dominating(n) if t.kind == "for" and lab is True]
                             it = None
                             if loops:
-                                itx = fl.expand(loops[-1].stmt.iter, loops[-1])
-                                cn = call_name(itx)
-                                if cn == "enumerate" and itx.args:
-                                    itx = itx.args[0]
-                                elif cn == "range" and len(itx.args) == 1 and call_name(itx.args[0]) == "len":
-                                    itx = itx.args[0].args[0]
-                                elif cn == "items" and isinstance(itx.func, ast.Attribute):
-                                    itx = itx.func.value
-                                it = itx
+                                it = iter_base(fl.expand(loops[-1].stmt.iter, loops[-1]))
                                 conds = [t for t, lab in fl.cfg.edges_dominating(n) if t.kind == "test" and fl.cfg.dominates(loops[-1], t)]
                                 if conds:
                                     it = ast.Call(func=ast.Name(id="__filtered__", ctx=ast.Load()), args=[it], keywords=[])
@@ -453,6 +432,23 @@ def collect_list(fl, value, node, depth=4):
             return out
         return collect_list(fl, init, d, depth - 1)
     return None
+
+
+def iter_base(itx):
+    """the container an iteration expression walks over (strips enumerate / range(len()) / items / values / keys)."""
+    cn = call_name(itx)
+    if cn == "enumerate" and itx.args:
+        return itx.args[0]
+    if cn == "range" and len(itx.args) == 1 and call_name(itx.args[0]) == "len":
+        return itx.args[0].args[0]
+    if cn in ("items", "values", "keys") and isinstance(itx.func, ast.Attribute) and not itx.args:
+        return itx.func.value
+    return itx
+
+
+def elem_symbols(e):
+    """canonical strings of the synthetic element/index symbols (__elem__/__val__/__key__/__idx__) occurring in e."""
+    return {canon(c) for c in ast.walk(e) if isinstance(c, ast.Call) and call_name(c) in ("__elem__", "__val__", "__key__", "__idx__")}
 
 
 def resolve_prop(repo, cls, s):
